@@ -323,7 +323,61 @@ func Run(c *engine.Ctx) {
 			}
 		}
 	}
+	deepComponents(c)
 	byteStrings(c)
+}
+
+// deepComponents: nesting that follows the schema. CycloneDX components are the only recursive structure of the two
+// formats; chains of nested components at every depth class up to encoding/json's own limit, under the metadata
+// component and under a top-level component, with and without references.
+func deepComponents(c *engine.Ctx) {
+	c.Group("cdx-deep-components")
+	depths := []int{1, 2, 3, 10, 100, 255, 256, 257, 511, 512, 513, 514, 1000, 1023, 1024, 1025, 2000}
+	if c.Thorough() {
+		depths = append(depths, 4000, 4990, 4999, 5000, 9000)
+	}
+	c.Bound("cdx-deep-components", fmt.Sprintf("component chains of %d depth classes (up to the decoder's nesting limit) x {under metadata.component, under components[0]} x {with bom-ref, without} x {1.4, 1.5}", len(depths)))
+	for _, d := range depths {
+		for where := 0; where < 2; where++ {
+			for refs := 0; refs < 2; refs++ {
+				for _, ver := range []string{"1.4", "1.5"} {
+					d, where, refs, ver := d, where, refs, ver
+					c.Case(func() any { return map[string]any{"depth": d, "under": []string{"metadata.component", "components[0]"}[where], "refs": refs == 1, "version": ver} }, func(t *engine.T) *engine.Violation {
+						var sb strings.Builder
+						for i := 0; i < d; i++ {
+							if refs == 1 {
+								fmt.Fprintf(&sb, `{"bom-ref":"n%d","type":"library","name":"n%d","components":[`, i, i)
+							} else {
+								fmt.Fprintf(&sb, `{"type":"library","name":"n%d","components":[`, i)
+							}
+						}
+						sb.WriteString(`{"type":"file","name":"leaf"}`)
+						sb.WriteString(strings.Repeat("]}", d))
+						chain := sb.String()
+						var in string
+						if where == 0 {
+							in = `{"bomFormat":"CycloneDX","specVersion":"` + ver + `","version":1,"metadata":{"component":` + chain + `},"components":[]}`
+						} else {
+							in = `{"bomFormat":"CycloneDX","specVersion":"` + ver + `","version":1,"metadata":{"component":{"bom-ref":"root","type":"application","name":"app"}},"components":[` + chain + `]}`
+						}
+						t.State(fmt.Sprintf("deep|%d|%d|%d|%s", d, where, refs, ver))
+						if d >= 1000 {
+							return probeInChild(t, []byte(in), fmt.Sprintf("component-depth-%d", d))
+						}
+						if v := probe(t, []byte(in), false); v != nil {
+							return v
+						}
+						// whatever was parsed must contain the whole chain
+						doc, err := rw.Read([]byte(in))
+						if err == nil && len(doc.NodeList.Nodes) != d+1+where {
+							return engine.Violate("deep-nesting-truncated", "", "a chain of %d nested components parsed without error into %d nodes", d, len(doc.NodeList.Nodes))
+						}
+						return nil
+					})
+				}
+			}
+		}
+	}
 }
 
 var tokens = []string{"{", "}", "[", "]", ":", ",", `"`, "a", "1", " ", "\n", "null", `"bomFormat":"CycloneDX"`, `"specVersion":"1.5"`, `"spdxVersion":"SPDX-2.3"`, "SPDXVersion: SPDX-2.3", "\xff", `"components":`, `"packages":`}
